@@ -117,8 +117,9 @@ func stressRun(rep *vh.Report, sp *StressPlan, tw *traceWriter, seed int64, run 
 	}
 	// per-goroutine bookkeeping for the translation of hook events into model steps (under s.mu)
 	type tstate struct {
-		nextIter int
-		pushed   bool
+		nextIter    int
+		pushed      bool
+		pendingWake bool
 	}
 	ts := map[*gstate]*tstate{}
 	lastCh := rp.lastCh
@@ -168,8 +169,11 @@ func stressRun(rep *vh.Report, sp *StressPlan, tw *traceWriter, seed int64, run 
 					if t.nextIter == 1 {
 						return
 					}
-					out["act"] = "next_wake"
-					break
+					// The waiter saw the closed channel, which the writer closes INSIDE its critical section, i.e. possibly
+					// before the writer's unlock event (= the model's step). The wake-up step is therefore logged right
+					// before the waiter's next lock acquisition, when the writer's step has certainly been logged.
+					t.pendingWake = true
+					return
 				}
 				fallthrough
 			default:
@@ -182,6 +186,10 @@ func stressRun(rep *vh.Report, sp *StressPlan, tw *traceWriter, seed int64, run 
 				out["arg"] = map[string]any{"op": m, "peer": p}
 			}
 		case "locked":
+			if t.pendingWake {
+				t.pendingWake = false
+				tw.emit(map[string]any{"th": g.name, "seq": e.Seq, "act": "next_wake"})
+			}
 			if e.Obj == "queue" {
 				out["act"] = "lock_queue"
 			} else {
